@@ -1,0 +1,48 @@
+package values
+
+import (
+	"fmt"
+	"reflect"
+)
+
+// Sprint formats value as fmt.Sprint does, with every Drop replaced by its
+// ToLiquid value and every pointer by what it points to - also inside slices,
+// arrays and maps - so that the text of a composite value depends on what it
+// holds, not on how (or where in memory) its parts are held.
+func Sprint(value any) string {
+	return fmt.Sprint(plain(value, 0))
+}
+
+func plain(value any, depth int) any {
+	value = ToLiquid(value)
+	if value == nil || depth > 32 {
+		return value
+	}
+	rv := reflect.ValueOf(value)
+	switch rv.Kind() {
+	case reflect.Ptr:
+		if rv.IsNil() {
+			return nil
+		}
+		return plain(rv.Elem().Interface(), depth+1)
+	case reflect.Slice, reflect.Array:
+		if k := rv.Type().Elem().Kind(); k != reflect.Interface && k != reflect.Ptr {
+			return value
+		}
+		out := make([]any, rv.Len())
+		for i := range out {
+			out[i] = plain(rv.Index(i).Interface(), depth+1)
+		}
+		return out
+	case reflect.Map:
+		if k := rv.Type().Elem().Kind(); k != reflect.Interface && k != reflect.Ptr {
+			return value
+		}
+		out := make(map[any]any, rv.Len())
+		for _, key := range rv.MapKeys() {
+			out[key.Interface()] = plain(rv.MapIndex(key).Interface(), depth+1)
+		}
+		return out
+	}
+	return value
+}
